@@ -31,6 +31,8 @@ class SimThread:
             return b[1].owner is None
         if b[0] == "cond":
             return False                      # needs a notify first
+        if b[0] == "barrier":
+            return b[1].generation != b[2]
         if b[0] == "join":
             who = b[1] if len(b) > 1 and b[1] is not None else [t for t in self.sched.threads if t is not self]
             return all(t.state == "done" for t in who)
@@ -38,8 +40,10 @@ class SimThread:
 
 
 class Sched:
-    def __init__(self, e, max_switches=400):
+    def __init__(self, e, max_switches=400, max_preempt=None):
         self.e = e
+        self.max_preempt = max_preempt      # None: unbounded; n: at most n switches away from a thread that could have continued
+        self.preempts = 0
         self.threads = []
         self.main = SimThread(self, 0, None, "main")
         self.threads.append(self.main)
@@ -96,8 +100,14 @@ class Sched:
                 return
             blocked = [(t.name, t.block[0] if t.block else t.state) for t in self.threads if t.state != "done"]
             raise PropertyViolation("sched:deadlock", f"no thread can run; blocked: {blocked}")
+        if cur in en:
+            en.remove(cur); en.insert(0, cur)          # choice 0 = the running thread continues
+            if self.max_preempt is not None and self.preempts >= self.max_preempt:
+                en = [cur]
         k = self.e.choose(len(en)) if len(en) > 1 else 0
         nxt = en[k]
+        if cur in en and nxt is not cur:
+            self.preempts += 1
         if nxt.state == "blocked":
             b = nxt.block
             if b[0] == "mutex":
